@@ -287,7 +287,7 @@ def isolate_clauses(name, outdir, repo, contracts, fn_disp, report):
                 undec.append('clause %s:%d of %s alone: %s' % (cl['vspec'], cl['first'], fn_disp, u_))
     return fails, undec
 
-def run_unit(name, outdir, repo='/repo', canary=False, contracts=None, extra=None):
+def run_unit(name, outdir, repo='/repo', canary=False, contracts=None, extra=None, tag=''):
     """Build and verify one unit.  Returns a result dict."""
     res = {'unit': name, 'canary': canary}
     t0 = time.time()
@@ -302,7 +302,7 @@ def run_unit(name, outdir, repo='/repo', canary=False, contracts=None, extra=Non
         res.update(status='undecided', undecided=['splice error: %r' % e], failures=[], report=None, wall_s=time.time() - t0)
         return res
     os.makedirs(outdir, exist_ok=True)
-    path = os.path.join(outdir, name + ('_canary' if canary else '') + '.rs')
+    path = os.path.join(outdir, name + ('_canary' if canary else '') + tag + '.rs')
     open(path, 'w').write(text)
     vr = run_verus(path, extra=extra, multiple_errors=(1 if canary else 20))
     failures, undecided = analyse(name, vr, linemap, u.report, path, frame_type=u.cfg.get('frame_type'))
